@@ -21,6 +21,9 @@ class GenericSpecifier(BaseSpecifier):
         "!=": operator.ne,
         "in": lambda lhs, rhs: lhs in rhs,
         "not in": lambda lhs, rhs: lhs not in rhs,
+        # reversed forms (`"literal" in variable`): the candidate contains the literal
+        "contains": lambda lhs, rhs: rhs in lhs,
+        "not contains": lambda lhs, rhs: rhs not in lhs,
         ">": operator.gt,
         ">=": operator.ge,
         "<": operator.lt,
@@ -40,6 +43,8 @@ class GenericSpecifier(BaseSpecifier):
             "!=": "==",
             "not in": "in",
             "in": "not in",
+            "contains": "not contains",
+            "not contains": "contains",
             "<": ">=",
             "<=": ">",
             ">": "<=",
